@@ -19,7 +19,7 @@ func init() {
 			"bitmaps of 4..64 words with range ends drawn from {word boundaries +-1, positions of 1-bits +-1, random}. Non-trivial+distinct = hash of (bitmap) for all-range batches with at least one 0 and one 1, " +
 			"hash of (bitmap, i, end) for sampled ranges.",
 		Assumptions: []string{"domain as stated: i inside the bitmap, i <= end <= 64*len, end >= 1 for PrevOne"},
-		Flavours:    releaseOnly,
+		Flavours:    releaseThenGo126,
 		Required: []string{"next/in-first-word", "next/after-skipped-zero-words", "next/next-word", "next/none", "next/found-but-beyond-end", "range/empty", "range/i-aligned", "range/end-aligned",
 			"prev/in-last-word", "prev/after-skipped-zero-words", "prev/prev-word", "prev/none", "prev/found-but-before-i"},
 		Families: func(c *mon.Config) []mon.Family {
